@@ -11,7 +11,17 @@ import collections
 from . import common as C
 
 
+_KEYS = {}
+
+
 def _fam_key(fam, tier, seed, hkey):
+    k = (fam["name"], tier, seed, hkey)
+    if k not in _KEYS:
+        _KEYS[k] = _fam_key0(fam, tier, seed, hkey)
+    return _KEYS[k]
+
+
+def _fam_key0(fam, tier, seed, hkey):
     spec_hash = C.dir_hash(C.SPEC, (".tla", ".cfg"))
     beh_hash = C.dir_hash(os.path.join(C.VERIF, "behaviours"), (".json",)) if os.path.isdir(os.path.join(C.VERIF, "behaviours")) else ""
     lib_hash = C.dir_hash(os.path.join(C.VERIF, "vlib"), (".py",))
@@ -37,6 +47,7 @@ def run_family(fam, tier, seed):
         if os.path.exists(resf):
             r = json.load(open(resf))
             r["cached"] = True
+            r["cdir"] = cdir
             return r
         t0 = time.time()
         work = C.new_workdir(fam["name"])
@@ -49,6 +60,7 @@ def run_family(fam, tier, seed):
             json.dump(r, open(resf, "w"))
             _prune_cache()
             r["cached"] = False
+            r["cdir"] = cdir
             return r
         finally:
             shutil.rmtree(work, ignore_errors=True)
@@ -82,13 +94,14 @@ def _run_family(fam, tier, seed, binp, work):
     behs = [dict(name=b["name"], events=b["events"]) for b in fixed_behaviours(fam)]
     for gi, (cfg, share) in enumerate(g["cfgs"]):
         n = max(1, int(num * share))
-        sim = C.simulate(work, g["module"], cfg, n, depth, seed * 7919 + gi, timeout=g.get("timeout", 600))
+        dep = int(depth * g.get("depth_factor", {}).get(cfg, 1))
+        sim = C.simulate(work, g["module"], cfg, n, dep, seed * 7919 + gi, timeout=g.get("timeout", 600))
         behs += [dict(name="%s/seed%d#%d" % (cfg, seed, i), events=b) for i, b in enumerate(sim)]
     json.dump(behs, open(os.path.join(work, "behaviours.json"), "w"))
     # 3. execute on the real code
     h = fam["harness"]
     trace = C.run_harness(binp, work, h["family"], h["chains"], h["links"], [b["events"] for b in behs],
-                          extra_env=h.get("env"))
+                          extra_env=h.get("env"), params=h.get("params"))
     # 4. TLC trace check (MONITOR + REFINE)
     t = fam["trace"]
     res = C.trace_check(work, t["module"], t["cfg"], trace)
@@ -122,18 +135,41 @@ def _run_family(fam, tier, seed, binp, work):
                 acts=dict(acts), stats=dict(stats), distinct=len(distinct), samples=list(samples.values())[:12])
 
 
-def behaviour_of(fam, tier, seed, tr):
+def behaviour_of(fam, tier, seed, tr, cdir=None):
     """Events of trace number tr (1-based) of the cached family run."""
-    binp, hkey = C.ensure_harness()
-    key = _fam_key(fam, tier, seed, hkey)
-    behs = json.load(open(os.path.join(C.WORK, "cache", key, "behaviours.json")))
+    if cdir is None:
+        binp, hkey = C.ensure_harness()
+        cdir = os.path.join(C.WORK, "cache", _fam_key(fam, tier, seed, hkey))
+    behs = json.load(open(os.path.join(cdir, "behaviours.json")))
     return behs[tr - 1]
 
 
+def merge_runs(pairs):
+    """pairs: [(fam, r)]. Returns a run dict over all of them; bad/div entries remember their family."""
+    out = dict(designs=[], n_behaviours=0, bad=[], div=[], steps=0, acts={}, distinct=0, samples=[], wall_s=0, cached=True, fams={})
+    for fam, r in pairs:
+        out["designs"] += r["designs"]
+        out["n_behaviours"] += r["n_behaviours"]
+        for x in r["bad"]:
+            out["bad"].append(dict(x, fam=fam["name"], cdir=r.get("cdir")))
+        for x in r["div"]:
+            out["div"].append(dict(x, fam=fam["name"]))
+        out["steps"] += r["steps"]
+        for k, v in r["acts"].items():
+            out["acts"][fam["name"] + ":" + k] = v
+        out["distinct"] += r["distinct"]
+        out["samples"] += r["samples"][:6]
+        out["wall_s"] += r.get("wall_s", 0)
+        out["cached"] = out["cached"] and bool(r.get("cached"))
+        out["fams"][fam["name"]] = fam
+    return out
+
+
 def verdict(prop, fam, tier, seed, r, extra_cov=None, level_note=None):
-    """Turns a family run into the verdict for one property. Returns exit code."""
+    """Turns a family run (or a merge of several) into the verdict for one property. Returns exit code."""
     t0 = time.time()
     known = C.load_known()
+    fams = r.get("fams") or {fam["name"]: fam}
     mine = [b for b in r["bad"] if b["v"]["p"] == prop]
     viol, kf = [], {}
     for b in mine:
@@ -145,7 +181,7 @@ def verdict(prop, fam, tier, seed, r, extra_cov=None, level_note=None):
     for kid, x in sorted(kf.items()):
         print("KNOWN-FINDING: property=%s %s (%s; seen %d times in this run)" % (prop, x["k"]["what"], kid, x["n"]))
     for d in r["div"][:20]:
-        print("DIVERGENCE family=%s trace=%s step=%s %s: %s" % (fam["name"], d["tr"], d["i"], d["v"]["f"], d["v"]["d"]))
+        print("DIVERGENCE family=%s trace=%s step=%s %s: %s" % (d.get("fam", fam["name"]), d["tr"], d["i"], d["v"]["f"], d["v"]["d"]))
         print("    " + json.dumps(d.get("ctx"))[:700])
     replays = []
     seen = set()
@@ -154,10 +190,11 @@ def verdict(prop, fam, tier, seed, r, extra_cov=None, level_note=None):
         if fp in seen:
             continue
         seen.add(fp)
-        beh = behaviour_of(fam, tier, seed, b["tr"])
-        path = C.save_replay(prop, dict(property=prop, family=fam["name"], formula=b["v"]["f"], detail=b["v"]["d"],
+        bfam = fams[b.get("fam", fam["name"])]
+        beh = behaviour_of(bfam, tier, seed, b["tr"], b.get("cdir") or r.get("cdir"))
+        path = C.save_replay(prop, dict(property=prop, family=bfam["name"], formula=b["v"]["f"], detail=b["v"]["d"],
                                         step=b["i"], behaviour=beh["events"][:b["i"]], name=beh["name"],
-                                        harness=fam["harness"]))
+                                        harness=bfam["harness"], trace=bfam["trace"]))
         replays.append(path)
         print("VIOLATION property=%s replay=%s" % (prop, path))
         print("  formula %s (%s) failed at step %d of behaviour %s" % (b["v"]["f"], b["v"]["d"], b["i"], beh["name"]))
@@ -188,8 +225,10 @@ def replay(prop, fam, path):
     try:
         C.copy_specs(work)
         h = rp.get("harness") or fam["harness"]
-        trace = C.run_harness(binp, work, h["family"], h["chains"], h["links"], [rp["behaviour"]], shards=1, extra_env=h.get("env"))
-        res = C.trace_check(work, fam["trace"]["module"], fam["trace"]["cfg"], trace)
+        trace = C.run_harness(binp, work, h["family"], h["chains"], h["links"], [rp["behaviour"]], shards=1, extra_env=h.get("env"),
+                              params=h.get("params"))
+        tr = rp.get("trace") or fam["trace"]
+        res = C.trace_check(work, tr["module"], tr["cfg"], trace)
         known = C.load_known()
         mine = [b for b in res["bad"] if b["v"]["p"] == prop and not C.match_known(prop, b["v"], known)]
         for b in mine:
